@@ -137,6 +137,8 @@ theorem satCell_eq_closed {y rho : List ℚ} {eps : ℚ} (h : Admissible y rho) 
           intro e; linarith [hm.eps_pos]
         rw [two_phase_as_coded y0 y1 r0 r1 h this]
       · -- more phases: vanished phases dropped, system solved, scattered back
+        have hsum := (sum_select eps hm.eps_pos.le y hm.vanished).trans h.sum_one
+        simp only [codedSolution_eq_sat_of_sum _ _ hsum]
         exact congrArg _ (vanished_branch y rho eps h.len hm.eps_pos.le hm.vanished)
 
 /-- the parallel loop over cells -/
@@ -167,6 +169,67 @@ theorem computeSaturations_consistent {ys rhos : List (List ℚ)} {eps : ℚ}
   | nil => exact .nil
   | cons hd _ ih =>
     exact .cons ⟨sat_nonneg hd.1, sat_sum_one hd.1, sat_reproduces_fractions hd.1⟩ ih
+
+/-! ### the eps-snapping regime (inputs within `eps` of a vanished / saturated state): quantitative statements
+
+`Margins` is not needed here.  Phases with `y_j ≤ eps` are dropped by the code; the fractions `y` handed to the solve then sum
+to `1 - d` with the defect `0 ≤ d ≤ (#dropped)·eps`.  `codedSolution` is the exact solution of the system the code assembles. -/
+
+/-- the explicit solution is the closed form whenever the fractions sum to one -/
+theorem codedSolution_eq_sat (y rho : List ℚ) (h : y.sum = 1) : codedSolution y rho = sat y rho :=
+  codedSolution_eq_sat_of_sum y rho h
+
+/-- `codedSolution` solves the system exactly as assembled by the code, also for fractions summing to less than one -/
+theorem codedSolution_solves {n : ℕ} (y rho : Fin n → ℚ) (hn : 2 ≤ n) (hy : ∀ i, 0 ≤ y i) (hs : ∑ i, y i ≤ 1)
+    (h0 : 0 < ∑ i, y i) (hr : ∀ i, 0 < rho i) :
+    matVec (codedMat (List.ofFn y) (List.ofFn rho)) (codedSolution (List.ofFn y) (List.ofFn rho))
+      = codedRhs (List.ofFn y) (List.ofFn rho) := by
+  rw [codedSolution_ofFn, codedMat_ofFn, codedRhs_ofFn, matVec_ofFn, List.ofFn_inj]
+  funext j
+  exact solF_solves y rho hn hy hs h0 hr j
+
+/-- reproduced fractions of the present phases, exactly: `ρ_j s_j / Σ ρ s = y_j + ρ_j (1 - y_j) d / P`,
+    `d = 1 - Σy` the dropped mass, `P = Σ_k ρ_k (1 - y_k)` -/
+theorem snap_reproduction {n : ℕ} (y rho : Fin n → ℚ) (hn : 2 ≤ n) (hy : ∀ i, 0 ≤ y i) (hs : ∑ i, y i ≤ 1)
+    (h0 : 0 < ∑ i, y i) (hr : ∀ i, 0 < rho i) :
+    fracOfSat (codedSolution (List.ofFn y) (List.ofFn rho)) (List.ofFn rho)
+      = List.ofFn fun j => y j + rho j * (1 - y j) * (1 - ∑ k, y k) / ∑ k, rho k * (1 - y k) := by
+  rw [codedSolution_ofFn, fracOfSat_ofFn, List.ofFn_inj]
+  funext j
+  exact solF_repro y rho hn hy hs h0 hr j
+
+/-- … and that error term is between `0` and `(ρ_max/ρ_min) · d / (n - 1)`: the explicit constant `C` of the
+    eps-snapping regime is the density ratio (with `d ≤ (#dropped) · eps`, see `snap_defect_le`) -/
+theorem snap_reproduction_error_le {n : ℕ} (y rho : Fin n → ℚ) (lo hi : ℚ) (hlo : ∀ i, lo ≤ rho i)
+    (hhi : ∀ i, rho i ≤ hi) (hl0 : 0 < lo) (hn : 2 ≤ n) (hy : ∀ i, 0 ≤ y i) (hs : ∑ i, y i ≤ 1) (j : Fin n) :
+    0 ≤ rho j * (1 - y j) * (1 - ∑ k, y k) / ∑ k, rho k * (1 - y k) ∧
+    rho j * (1 - y j) * (1 - ∑ k, y k) / ∑ k, rho k * (1 - y k) ≤ hi / lo * ((1 - ∑ k, y k) / ((n : ℚ) - 1)) := by
+  have hr : ∀ i, 0 < rho i := fun i => lt_of_lt_of_le hl0 (hlo i)
+  have hle : y j ≤ 1 := (Finset.single_le_sum (fun k _ => hy k) (mem_univ j)).trans hs
+  refine ⟨div_nonneg (mul_nonneg (mul_nonneg (hr j).le (by linarith)) (by linarith)) (P_pos y rho hn hy hs hr).le, ?_⟩
+  exact repro_err_le y rho lo hi hlo hhi hl0 hn hy hs j
+
+/-- the saturations returned by the solve then do NOT sum to one exactly: `Σ s - 1 = (Σ ρ s) · d / P` (zero iff `d = 0`) -/
+theorem snap_sum_error {n : ℕ} (y rho : Fin n → ℚ) (hn : 2 ≤ n) (hy : ∀ i, 0 ≤ y i) (hs : ∑ i, y i ≤ 1)
+    (h0 : 0 < ∑ i, y i) (hr : ∀ i, 0 < rho i) :
+    (codedSolution (List.ofFn y) (List.ofFn rho)).sum - 1
+      = dot (List.ofFn rho) (codedSolution (List.ofFn y) (List.ofFn rho)) * (1 - ∑ k, y k) / ∑ k, rho k * (1 - y k) := by
+  rw [codedSolution_ofFn, dot_ofFn, List.sum_ofFn]
+  exact solF_sum_err y rho hn hy hs h0 hr
+
+/-- the dropped mass is at most `eps` per dropped phase -/
+theorem snap_defect_le (y : List ℚ) (eps : ℚ) :
+    y.sum - (select (notVanished y eps) y).sum ≤ (y.countP (fun v => decide (¬ eps < v)) : ℚ) * eps :=
+  defect_select_le eps y
+
+/-- snapping to a saturated phase (`y_j ≥ 1 - eps` ⇒ `s = e_j`, which sums to one and reproduces itself) changes every
+    fraction by at most `eps`, independently of the densities -/
+theorem snap_saturated_error_le {n : ℕ} (y : Fin n → ℚ) (eps : ℚ) (hy : ∀ i, 0 ≤ y i) (hs : ∑ i, y i = 1)
+    (j0 : Fin n) (hj0 : 1 - eps ≤ y j0) :
+    ∀ p ∈ List.zip (indicator (List.ofFn y) eps) (List.ofFn y), |p.1 - p.2| ≤ eps := by
+  rw [indicator_ofFn, List.zip, zipWith_ofFn, List.forall_mem_ofFn_iff]
+  intro k
+  exact indicator_err_le y eps hy hs j0 hj0 k
 
 /-! ### chain rule -/
 
